@@ -477,6 +477,63 @@ def literal_checks(ctx):
                     c.line)
 
 
+def register_after_validation(ctx):
+    """A definition (type, routine, constant, variable) becomes visible in
+    the compilation tables only after its own validation: a check that runs
+    after the registration sees the definition itself, so e.g. a TYPE whose
+    field is of that same type is no longer an undefined type.  All six
+    registering handlers of the pinned tree follow this order."""
+    from ..cfg import build_cfg, repo_noreturn
+    repo = ctx.repo
+    rule = 'C05.definitions-registered-after-their-validation'
+    ctx.rule(rule, 'in every pass handler, no statement that can reject the '
+             'program (raise CompileError, validate_decl, '
+             'perform_argument_matching) is reachable, within the same loop '
+             'iteration, after the handler has stored the definition into a '
+             'self.compilation table')
+    n = 0
+    for pcls, h, which, f in R.pass_handlers(repo):
+        cfg = build_cfg(f.node, repo_noreturn)
+        regs = [x for x in cfg.nodes if x.ast is not None and
+                x.kind == 'stmt' and isinstance(x.ast, ast.Assign) and
+                isinstance(x.ast.targets[0], ast.Subscript) and
+                (dotted(x.ast.targets[0].value) or '').startswith(
+                    'self.compilation.')]
+        if not regs:
+            continue
+        raisers = [x for x in cfg.nodes if x.ast is not None and (
+            isinstance(x.ast, ast.Raise) or (
+                isinstance(x.ast, ast.stmt) and
+                not isinstance(x.ast, (ast.For, ast.While, ast.If,
+                                       ast.Try, ast.With)) and
+                any(isinstance(c, ast.Call) and
+                    (dotted(c.func) or '').split('.')[-1] in (
+                        'validate_decl', 'perform_argument_matching')
+                    for c in ast.walk(x.ast))))]
+        loops = [x for x in cfg.nodes if x.kind == 'for']
+        for r in regs:
+            n += 1
+            # do not go round a loop that contains the registration (the
+            # next iteration validates the next definition)
+            inside = [l for l in loops if any(
+                y is r.ast for b in l.ast.body for y in ast.walk(b))]
+            after = cfg.reachable(r, blocked_nodes=inside)
+            bad = [x for x in raisers if x in after and x is not r]
+            construct = (f'{f.file}:{f.qualname}:'
+                         f'{dotted(r.ast.targets[0].value)}')
+            ctx.instance(rule, construct, sample={'checks_after': len(bad)})
+            if bad:
+                ctx.finding(rule, construct,
+                            f'{f.qualname} stores into '
+                            f'{dotted(r.ast.targets[0].value)} and can still '
+                            f'reject afterwards '
+                            f'(`{unparse(bad[0].ast)[:50]}`): the check '
+                            f'already sees the definition being checked '
+                            f'(e.g. a self-referential TYPE is accepted)',
+                            f.file, r.line)
+    ctx.floor('table registrations in pass handlers', n, 5)
+
+
 def run(ctx):
     ctx.clauses = [
         'no dead pass handlers', 'every diagnostic is located',
@@ -498,6 +555,7 @@ def run(ctx):
     block_matching(ctx)
     literal_checks(ctx)
     level_independence(ctx, 'C05')
+    register_after_validation(ctx)
     from .. import grammar_shapes
     grammar_shapes.check_child_fields(ctx, 'C05')
     from .. import gensim
